@@ -149,7 +149,6 @@ func handleMGet(params internal.HandlerFuncParams) ([]byte, error) {
 	values := make(map[string]string)
 	for key, value := range params.GetValues(params.Context, keys.ReadKeys) {
 		if value == nil {
-			values[key] = ""
 			continue
 		}
 		values[key] = fmt.Sprintf("%v", value)
@@ -158,7 +157,7 @@ func handleMGet(params internal.HandlerFuncParams) ([]byte, error) {
 	bytes := []byte(fmt.Sprintf("*%d\r\n", len(params.Command[1:])))
 
 	for _, key := range params.Command[1:] {
-		if values[key] == "" {
+		if _, ok := values[key]; !ok {
 			bytes = append(bytes, []byte("$-1\r\n")...)
 			continue
 		}
